@@ -401,10 +401,12 @@ protected:
                } else {
                    if constexpr(have_pool) {
                        if (!pool->any_enqueued() && coro_queue::can_block()) {
+                           COCLS_VERIF_POINT("sched_wait");
                            _cond.wait_until(lk, x);
                        }
                    } else {
                        if (coro_queue::can_block()) {
+                           COCLS_VERIF_POINT("sched_wait");
                            _cond.wait_until(lk, x);
                        }
                    }
